@@ -35,7 +35,15 @@
      RouteOnly          keys are compared by route only, the host is ignored
      NoSubOnReplace     the replaced entry's size is not subtracted from total
      NoRemoveOnReplace  the replaced entry is neither removed nor subtracted
-     PopBack            eviction subtracts the front entry's size but removes the back entry *)
+     PopBack            eviction subtracts the front entry's size but removes the back entry
+     EvictGe            eviction tests total + size >= Limit (an item of exactly the free space evicts)
+     NeverFitsGe        an early return for items that "can never fit" tests size >= Limit
+     SameLenKeepsTime   an entry overwritten with a value of the same length is updated in place and
+                        keeps its old cache time
+     StaleDropNoAccount stale entries are dropped at the start of set without subtracting their sizes
+     StaleIndexAfterEvict  the index of the entry to replace is taken before the eviction loop (which only
+                        makes room for the growth) and used after it
+     KeyStripsSlash     (StaticCache.tla) the handlers derive the cache key by stripping trailing slashes *)
 EXTENDS Integers, Sequences, FiniteSets, TLC
 
 CONSTANTS Routes,      \* set of strings
@@ -47,7 +55,8 @@ CONSTANTS Routes,      \* set of strings
           Dev
 
 DevNames == {"EvictIgnoresNew", "StaleGe", "StaleOff", "RouteOnly", "NoSubOnReplace",
-             "NoRemoveOnReplace", "PopBack"}
+             "NoRemoveOnReplace", "PopBack", "EvictGe", "NeverFitsGe", "SameLenKeepsTime",
+             "StaleDropNoAccount", "StaleIndexAfterEvict", "KeyStripsSlash"}
 ASSUME Dev \subseteq DevNames
 ASSUME Limit \in Nat /\ TimeLimit \in Nat /\ Ticks \subseteq (Nat \ {0})
 
@@ -89,7 +98,9 @@ GetRes(es, r, h, now) ==
 
 RemoveAt(s, i) == SubSeq(s, 1, i - 1) \o SubSeq(s, i + 1, Len(s))
 
-OverLimit(tot, sz) == IF "EvictIgnoresNew" \in Dev THEN tot > Limit ELSE tot + sz > Limit
+OverLimit(tot, sz) == IF "EvictIgnoresNew" \in Dev THEN tot > Limit
+                      ELSE IF "EvictGe" \in Dev THEN tot + sz >= Limit
+                      ELSE tot + sz > Limit
 
 \* the `while` loop of Cache::set; result <<entries, total, panicked>>.  The real loop has no emptiness
 \* test: data[0] panics on an empty deque (for sz <= Limit and total = sum of sizes it never gets there).
@@ -102,8 +113,8 @@ Evict(es, tot, sz) ==
        ELSE Evict(Tail(es), tot - es[1].size, sz)
   ELSE <<es, tot, FALSE>>
 
-\* the whole of Cache::set; result <<entries, total, panicked>>
-SetRes(es, tot, r, h, p, now) ==
+\* the whole of Cache::set as written; result <<entries, total, panicked>>
+SetAsWritten(es, tot, r, h, p, now) ==
   LET ev   == Evict(es, tot, p.size)
       es1  == ev[1]
       tot1 == ev[2]
@@ -113,6 +124,30 @@ SetRes(es, tot, r, h, p, now) ==
       tot2 == IF keep \/ "NoSubOnReplace" \in Dev THEN tot1 ELSE tot1 - es1[i].size
   IN  IF ev[3] THEN <<es1, tot1, TRUE>>
       ELSE <<Append(es2, Entry(r, h, p, now)), tot2 + p.size, FALSE>>
+
+\* hypothetical fault StaleIndexAfterEvict: position and size of the old entry taken first, room made
+\* only for the growth, then VecDeque::remove(old index) on the shifted queue (None when out of range)
+SetStaleIndex(es, tot, r, h, p, now) ==
+  LET i0     == Pos(es, r, h)
+      old    == IF i0 = 0 THEN 0 ELSE es[i0].size
+      growth == IF p.size > old THEN p.size - old ELSE 0
+      ev     == Evict(es, tot, growth)
+      es1    == ev[1]
+      hitIx  == i0 # 0 /\ i0 <= Len(es1)
+      es2    == IF hitIx THEN RemoveAt(es1, i0) ELSE es1
+      tot2   == IF hitIx THEN ev[2] - es1[i0].size ELSE ev[2]
+  IN  IF ev[3] THEN <<es1, ev[2], TRUE>>
+      ELSE <<Append(es2, Entry(r, h, p, now)), tot2 + p.size, FALSE>>
+
+SetRes(es, tot, r, h, p, now) ==
+  LET i0    == Pos(es, r, h)
+      fresh == SelectSeq(es, LAMBDA e : ~Stale(e, now))
+  IN  IF "NeverFitsGe" \in Dev /\ p.size >= Limit THEN <<es, tot, FALSE>>
+      ELSE IF "SameLenKeepsTime" \in Dev /\ i0 # 0 /\ es[i0].size = p.size
+      THEN <<[es EXCEPT ![i0] = Entry(r, h, p, es[i0].t)], tot, FALSE>>
+      ELSE IF "StaleDropNoAccount" \in Dev THEN SetAsWritten(fresh, tot, r, h, p, now)
+      ELSE IF "StaleIndexAfterEvict" \in Dev THEN SetStaleIndex(es, tot, r, h, p, now)
+      ELSE SetAsWritten(es, tot, r, h, p, now)
 
 (***************************************************************************)
 (* Actions                                                                 *)
